@@ -14,6 +14,7 @@ HANDLERS = {
     "dec": ("harness.py.dec_cmd", "run"),
     "rt": ("harness.py.dec_cmd", "run_rt"),
     "lcd_py": ("harness.py.lcd_cmd", "run"),
+    "pxmap": ("harness.py.lcd_cmd", "pxmap"),
     "kbd_py": ("harness.py.kbd_cmd", "run"),
     "mem_py": ("harness.py.mem_cmd", "run"),
     "il": ("harness.py.il_cmd", "run"),
